@@ -40,6 +40,10 @@
 #include "gf2.h"
 #include "givpoly1.h"
 #include "random-integer.h"
+#include "extension.h"
+#include "gfqext.h"
+#include "qfield.h"
+#include "givrational.h"
 #include <recint/recint.h>
 
 using namespace Givaro;
@@ -141,7 +145,7 @@ template <class Ring> struct Val {          // value of an element as an integer
 template <> struct Val<GF2> { static std::string show(const GF2&, const bool& e) { return e ? "1" : "0"; } };
 template <class T> struct Val<GFqDom<T> > {   // value: the exponent itself is the canonical datum; also print the residue for prime fields
     static std::string show(const GFqDom<T>& F, const typename GFqDom<T>::Element& e) {
-        if (F.exponent() == 1) { int64_t z; F.convert(z, e); return std::to_string((long long) z); }
+        if (F.exponent() == 1 && e >= 0 && (uint64_t) e < (uint64_t) F.cardinality()) { int64_t z; F.convert(z, e); return std::to_string((long long) z); }
         return "x";
     }
 };
@@ -178,6 +182,24 @@ template <class T> struct Mk<GFqDom<T> > {      // "p^e"
         return new GFqDom<T>((typename GFqDom<T>::Residu_t) p, (typename GFqDom<T>::Residu_t) e);
     }
 };
+template <class T> struct Mk<GFqExtFast<T> > {
+    static GFqExtFast<T>* make(const std::string& ps) {
+        size_t c = ps.find('^'); uint64_t p = pu64(ps.substr(0, c)), e = (c == std::string::npos) ? 1 : pu64(ps.substr(c + 1));
+        return new GFqExtFast<T>((typename GFqDom<T>::Residu_t) p, (typename GFqDom<T>::Residu_t) e);
+    }
+};
+template <class T> struct Mk<GFqExt<T> > {
+    static GFqExt<T>* make(const std::string& ps) {
+        size_t c = ps.find('^'); uint64_t p = pu64(ps.substr(0, c)), e = (c == std::string::npos) ? 1 : pu64(ps.substr(c + 1));
+        return new GFqExt<T>((typename GFqDom<T>::Residu_t) p, (typename GFqDom<T>::Residu_t) e);
+    }
+};
+template <class T> struct Val<GFqExtFast<T> > { static std::string show(const GFqExtFast<T>&, const typename GFqDom<T>::Element&) { return "x"; } };
+template <class T> struct Val<GFqExt<T> > { static std::string show(const GFqExt<T>&, const typename GFqDom<T>::Element&) { return "x"; } };
+template <class T> struct Sized<GFqExtFast<T>, void> : Sized<GFqDom<T>, void> {};
+template <class T> struct Sized<GFqExt<T>, void> : Sized<GFqDom<T>, void> {};
+template <class RI, bool = std::is_copy_assignable<RI>::value> struct Assign { static bool go(RI& a, const RI& b) { a = b; return true; } };
+template <class RI> struct Assign<RI, false> { static bool go(RI&, const RI&) { return false; } };
 template <> struct Mk<GF2> { static GF2* make(const std::string&) { return new GF2(); } };
 template <class T> struct Mk<UnparametricZRing<T> > { static UnparametricZRing<T>* make(const std::string&) { return new UnparametricZRing<T>(); } };
 
@@ -290,8 +312,141 @@ template <class Ring> struct PolyRun {
 
 typedef std::string (*Fn)(const Args&);
 static std::map<std::string, Fn> rings, polys, rurings;
-#define REG(name, ...) rings[name] = &RingRun<__VA_ARGS__ >::go
+#define REG(name, ...) rings[name] = &RingRun<__VA_ARGS__ >::go; ringseqs[name] = &RingSeq<__VA_ARGS__ >::go
 #define REGP(name, ...) polys[name] = &PolyRun<__VA_ARGS__ >::go
+
+// ---------------------------------------------------------------- iterators as objects with state: operation sequences
+// riiseq <U> <E> <seed> <samplesize|-> <op>...   ops: b<k> setBitsize(k) | + operator++ | * operator* | d randomInteger() | r random(a)
+//        | c operator()(a) | v operator()() | R random() | C copy-construct, go on with the copy | A<ss|-> build another iterator
+//        (seed+1, sample size ss), assign the current one to it, go on with that one
+//   prints  "bits:current" after construction and "bits:current[:returned]" after EVERY step, then the GMP trace
+template <bool U, bool E> static std::string riiseq_once(uint64_t seed, const std::string& ss, const Args& ops) {
+    typedef RandomIntegerIterator<U, E> RII;
+    g_trace.clear();
+    ZRing<Integer> Z;
+    std::unique_ptr<RII> it;
+    if (ss == "-") it.reset(new RII(Z, seed)); else it.reset(new RII(Z, seed, Integer(ss.c_str())));
+    std::ostringstream o;
+    o << it->getBitsize() << ":" << S(**it);
+    for (size_t k = 0; k < ops.size(); ++k) {
+        const std::string& op = ops[k];
+        std::string ret;
+        Integer a(-77);
+        if (op[0] == 'b') it->setBitsize((size_t) pu64(op.substr(1)));
+        else if (op == "+") ++(*it);
+        else if (op == "*") ret = S(**it);
+        else if (op == "d") ret = S(it->randomInteger());
+        else if (op == "r") { it->random(a); ret = S(a); }
+        else if (op == "c") { (*it)(a); ret = S(a); }
+        else if (op == "v") { a = (*it)(); ret = S(a); }
+        else if (op == "R") { a = it->random(); ret = S(a); }
+        else if (op == "C") { RII* n = new RII(*it); it.reset(n); }
+        else if (op[0] == 'A') {
+            std::string s2 = op.substr(1);
+            RII* n = (s2 == "-") ? new RII(Z, seed + 1) : new RII(Z, seed + 1, Integer(s2.c_str()));
+            *n = *it; it.reset(n);
+        }
+        else return "UNKNOWN-OP";
+        o << " " << it->getBitsize() << ":" << S(**it);
+        if (!ret.empty()) o << ":" << ret;
+    }
+    return o.str() + " ; " + trace_str();
+}
+struct RiiSeqCtx { int u, e; uint64_t seed; std::string ss; Args ops; };
+static std::string riiseq_f(void* c) {
+    RiiSeqCtx* x = (RiiSeqCtx*) c;
+    if (x->u && x->e) return riiseq_once<true, true>(x->seed, x->ss, x->ops);
+    if (x->u) return riiseq_once<true, false>(x->seed, x->ss, x->ops);
+    if (x->e) return riiseq_once<false, true>(x->seed, x->ss, x->ops);
+    return riiseq_once<false, false>(x->seed, x->ss, x->ops);
+}
+
+// ringseq <type> <p> <seed> <size> <ops>    ops: a string over  r c v R (the four draw forms of Ring::RandIter)
+//        n m (NonZeroRandIter random(a) / operator()(a) on top of the current iterator)  C (copy, go on with the copy)
+//        A (another iterator with seed+17 draws once, is assigned the current one, go on with it)
+template <class Ring> struct RingSeq {
+    typedef typename Ring::Element E;
+    typedef typename Ring::RandIter RI;
+    static std::string once(const Ring& F, uint64_t seed, const std::string& sz, const std::string& ops) {
+        typedef typename RI::Residu_t RR;
+        RR size = IO<RR>::parse(sz);
+        std::unique_ptr<RI> it(new RI(F, seed, size));
+        std::ostringstream o;
+        E r; F.init(r);
+        for (size_t k = 0; k < ops.size(); ++k) {
+            char op = ops[k];
+            F.assign(r, F.mOne);
+            if (op == 'r') it->random(r);
+            else if (op == 'c') (*it)(r);
+            else if (op == 'v') r = (*it)();
+            else if (op == 'R') r = it->random();
+            else if (op == 'n') { GeneralRingNonZeroRandIter<Ring, RI> nz(*it); nz.random(r); }
+            else if (op == 'm') { GeneralRingNonZeroRandIter<Ring, RI> nz(*it); GeneralRingNonZeroRandIter<Ring, RI> nz2(nz); nz2(r); }
+            else if (op == 'C') { RI* n = new RI(*it); it.reset(n); continue; }
+            else if (op == 'A') { RI* n = new RI(F, seed + 17, size); E t; F.init(t); n->random(t); if (!Assign<RI>::go(*n, *it)) { delete n; return "UNSUPPORTED"; } it.reset(n); continue; }
+            else return "UNKNOWN-OP";
+            o << rawshow<E>(r) << ":" << Val<Ring>::show(F, r) << (F.isZero(r) ? "z" : "") << " ";
+        }
+        return o.str();
+    }
+    static std::string go(const Args& a) {     // a = p seed size ops
+        if (a.size() < 4) return "BAD-LINE";
+        static std::unique_ptr<Ring> cur; static std::string curp;
+        if (!cur || curp != a[0]) { cur.reset(Mk<Ring>::make(a[0])); curp = a[0]; }
+        std::string s1 = once(*cur, pu64(a[1]), a[2], a[3]);
+        std::string s2 = once(*cur, pu64(a[1]), a[2], a[3]);
+        if (s1 != s2) return "NONREPRO " + s1 + " || " + s2;
+        return s1;
+    }
+};
+static std::map<std::string, std::string (*)(const Args&)> ringseqs;
+
+// qf <form> <seed> <args>     QField<Rational>::random / nonzerorandom: rnd_s s | nz_s s | rnd_b num den | nz_b num den | rnd_d | nz_d (default s)
+static std::string qf_once(const std::string& form, uint64_t seed, const Args& a) {
+    g_trace.clear();
+    Integer::seeding(seed);
+    QField<Rational> Q; GivRandom g(seed);
+    Rational r(7, 3);
+    if (form == "rnd_s") Q.random(g, r, (int64_t) pi64(a[0]));
+    else if (form == "nz_s") Q.nonzerorandom(g, r, (int64_t) pi64(a[0]));
+    else if (form == "rnd_d") Q.random(g, r);
+    else if (form == "nz_d") Q.nonzerorandom(g, r);
+    else if (form == "rnd_b") { Rational b(Integer(a[0].c_str()), Integer(a[1].c_str())); Q.random(g, r, b); }
+    else if (form == "nz_b") { Rational b(Integer(a[0].c_str()), Integer(a[1].c_str())); Q.nonzerorandom(g, r, b); }
+    else return "UNKNOWN-FORM";
+    return S(r.nume()) + " " + S(r.deno()) + " ; " + trace_str();
+}
+struct QfCtx { std::string form; uint64_t seed; Args a; };
+static std::string qf_f(void* c) { QfCtx* x = (QfCtx*) c; return qf_once(x->form, x->seed, x->a); }
+
+// ext <p> <e> <op> <seed> <n> [s]     Extension<GFqDom<int64_t>>: random(g,r) | random(g,r,s) | nonzerorandom(g,r) | nonzerorandom(g,r,s)
+//                                     | iter: GIV_ExtensionrandIter(F, size = s, seed), forms random(elt) / operator()(elt)
+//   prints per element  "[c0 c1 ...]" (exponents of the base field) and "| state" for the GivRandom forms
+static std::string ext_once(uint64_t p, uint64_t e, const std::string& op, uint64_t seed, int n, int64_t s) {
+    typedef Extension<GFqDom<int64_t> > Ext;
+    Ext F((Ext::Residu_t) p, (Ext::Residu_t) e);
+    std::ostringstream o;
+    o << F.order() << " " << F.characteristic();
+    GivRandom g(seed);
+    GIV_ExtensionrandIter<Ext, Integer> it(F, Integer(s), Integer(seed));
+    GIV_ExtensionrandIter<Ext, Integer> cp(it);
+    for (int i = 0; i < n; ++i) {
+        Ext::Element r;
+        if (op == "random") F.random(g, r);
+        else if (op == "random_s") F.random(g, r, (int64_t) s);
+        else if (op == "nzrandom") F.nonzerorandom(g, r);
+        else if (op == "nzrandom_s") F.nonzerorandom(g, r, (int64_t) s);
+        else if (op == "iter") { if (i % 2) it(r); else it.random(r); Ext::Element c; cp.random(c); if (c != r) o << " COPY-DIFFERS"; }
+        else return "UNKNOWN-OP";
+        o << " [";
+        for (size_t j = 0; j < r.size(); ++j) o << (j ? " " : "") << (long long) r[j];
+        o << "]";
+    }
+    if (op != "iter") o << " | " << g.seed();
+    return o.str();
+}
+struct ExtCtx { uint64_t p, e; std::string op; uint64_t seed; int n; int64_t s; };
+static std::string ext_f(void* c) { ExtCtx* x = (ExtCtx*) c; return ext_once(x->p, x->e, x->op, x->seed, x->n, x->s); }
 
 // ---------------------------------------------------------------- Part C: Integer range constructions
 // variant: t = <true> template form, f = <false> template form, d = the non-template (default) form
@@ -541,6 +696,27 @@ static std::string dispatch(const std::string& kind, const Args& a) {
         IntCtx c; c.op = a[0]; c.var = a[1]; c.seed = pu64(a[2]); c.a = Args(a.begin() + 3, a.end());
         return twice(int_f, &c);
     }
+    if (kind == "riiseq") {
+        if (a.size() < 4) return "BAD-LINE";
+        RiiSeqCtx c; c.u = atoi(a[0].c_str()); c.e = atoi(a[1].c_str()); c.seed = pu64(a[2]); c.ss = a[3]; c.ops = Args(a.begin() + 4, a.end());
+        return c.seed ? twice(riiseq_f, &c) : riiseq_f(&c);
+    }
+    if (kind == "ringseq") {
+        if (a.size() < 2) return "BAD-LINE";
+        std::map<std::string, Fn>::iterator it = ringseqs.find(a[0]);
+        if (it == ringseqs.end()) return "UNKNOWN-RING";
+        return it->second(Args(a.begin() + 1, a.end()));
+    }
+    if (kind == "qf") {
+        if (a.size() < 2) return "BAD-LINE";
+        QfCtx c; c.form = a[0]; c.seed = pu64(a[1]); c.a = Args(a.begin() + 2, a.end());
+        return twice(qf_f, &c);
+    }
+    if (kind == "ext") {
+        if (a.size() < 5) return "BAD-LINE";
+        ExtCtx c; c.p = pu64(a[0]); c.e = pu64(a[1]); c.op = a[2]; c.seed = pu64(a[3]); c.n = atoi(a[4].c_str()); c.s = a.size() > 5 ? pi64(a[5]) : 0;
+        return twice(ext_f, &c);
+    }
     if (kind == "rii") {
         if (a.size() < 5) return "BAD-LINE";
         RiiCtx c; c.u = atoi(a[0].c_str()); c.e = atoi(a[1].c_str()); c.seed = pu64(a[2]); c.ss = a[3]; c.n = atoi(a[4].c_str());
@@ -577,7 +753,7 @@ int main(int argc, char** argv) {
     REG("bf", ModularBalanced<float>); REG("bd", ModularBalanced<double>);
     REG("ef", ModularExtended<float>); REG("ed", ModularExtended<double>);
     REG("mg32", Montgomery<int32_t>); REG("log16", Modular<Log16>);
-    REG("gfq32", GFqDom<int32_t>); REG("gfq64", GFqDom<int64_t>); REG("gf2", GF2);
+    REG("gfq32", GFqDom<int32_t>); REG("gfq64", GFqDom<int64_t>); REG("gf2", GF2); REG("gfqx32", GFqExtFast<int32_t>); REG("gfqx64", GFqExt<int64_t>);
     REG("zi64", UnparametricZRing<int64_t>); REG("zu64", UnparametricZRing<uint64_t>); REG("zd", UnparametricZRing<double>);
     REGP("i32", Modular<int32_t>); REGP("u64", Modular<uint64_t>); REGP("d", Modular<double>); REGP("bi32", ModularBalanced<int32_t>);
     REGP("bd", ModularBalanced<double>); REGP("mg32", Montgomery<int32_t>); REGP("gfq32", GFqDom<int32_t>); REGP("gfq64", GFqDom<int64_t>);
